@@ -1027,6 +1027,27 @@ func NAME(a int, b int) (res int) {
 	out = append(out, mk("variadic-func-type/typed-nil", SigII, []string{"func-type"},
 		vf("\tif a&2 == 2 {\n\t\tx = (func(...int) int)(nil)\n\t}\n\tif _, ok := x.(func(...int) int); ok {\n\t\tres = 5\n\t}\n\treturn res + b"),
 		vf("\tif a&2 == 2 {\n\t\tx = (func([]int) int)(nil)\n\t}\n\tif _, ok := x.(func(...int) int); ok {\n\t\tres = 5\n\t}\n\treturn res + b")))
+	// a user-defined method that merely SHARES ITS NAME with a pure builtin (len, cap) and has
+	// an effect: calling it in every iteration is not calling it once before the loop
+	ul := func(m, pre, use string) string {
+		return `type cntNAME struct{ n int }
+
+func (c *cntNAME) ` + m + `() int {
+	c.n++
+	return c.n
+}
+
+func NAME(a int, b int) (res int) {
+	c := &cntNAME{n: a & 7}
+` + pre + `	for i := 0; i < b&7; i++ {
+		res = res*3 + ` + use + `
+	}
+	return res + c.n
+}
+`
+	}
+	out = append(out, mk("builtin-named-method/len", SigII, []string{"loop-up", "builtin-named-callee"}, ul("len", "", "c.len()"), ul("len", "\tk := c.len()\n", "k")))
+	out = append(out, mk("builtin-named-method/cap", SigII, []string{"loop-up", "builtin-named-callee"}, ul("cap", "", "c.cap()"), ul("cap", "\tk := c.cap()\n", "k")))
 	gc := func(e string) string {
 		return `func catNAME[T ~string | ~int](x T, y T) T {
 	return ` + e + `
